@@ -31,6 +31,7 @@ use arrow::compute::kernels::boolean::{not, or_kleene};
 use arrow::compute::kernels::cmp::eq as arrow_eq;
 use arrow::datatypes::*;
 
+use datafusion_common::utils::{normalize_float_zero, normalize_float_zero_scalar};
 use datafusion_common::{
     DFSchema, Result, ScalarValue, assert_or_internal_err, exec_err,
 };
@@ -325,7 +326,15 @@ impl PhysicalExpr for InListExpr {
 
     fn evaluate(&self, batch: &RecordBatch) -> Result<ColumnarValue> {
         let num_rows = batch.num_rows();
-        let value = self.expr.evaluate(batch)?;
+        // `=` treats -0.0 and +0.0 as equal (see `apply_cmp`); the filters below compare
+        // float bit patterns, so normalize the zeros of the needle and of every list
+        // item first.
+        let value = match self.expr.evaluate(batch)? {
+            ColumnarValue::Array(a) => ColumnarValue::Array(normalize_float_zero(&a)),
+            ColumnarValue::Scalar(s) => {
+                ColumnarValue::Scalar(normalize_float_zero_scalar(s))
+            }
+        };
         let r = match &self.static_filter {
             Some(filter) => {
                 match value {
@@ -377,6 +386,7 @@ impl PhysicalExpr for InListExpr {
                 let compare_one = |expr: &Arc<dyn PhysicalExpr>| -> Result<BooleanArray> {
                     match expr.evaluate(batch)? {
                         ColumnarValue::Array(array) => {
+                            let array = normalize_float_zero(&array);
                             if lhs_supports_arrow_eq
                                 && supports_arrow_eq(array.data_type())
                             {
@@ -396,6 +406,7 @@ impl PhysicalExpr for InListExpr {
                             }
                         }
                         ColumnarValue::Scalar(scalar) => {
+                            let scalar = normalize_float_zero_scalar(scalar);
                             // Check if scalar is null once, before the loop
                             if scalar.is_null() {
                                 // If scalar is null, all comparisons return null
